@@ -60,7 +60,7 @@ Proof.
     pose proof (Fu x (or_introl eq_refl)) as Lx.
     rewrite Du, (delta_exact vals x Pp (Pu x (or_intror (or_introl eq_refl)))) in Lx.
     assert (0 <= dsum vals r); [|lia].
-    apply IHr; intros; [apply Fu; now right|apply Pu; destruct H; [now left|right; now right]]. }
+    apply IHr; [intros u0 H0; apply Pu; destruct H0; [now left|right; now right]|intros; apply Fu; now right]. }
   destruct (Z.ltb_spec max_total_voting_power (acc + (v_power u - look vals u))) as [L|L].
   { exfalso. destruct (Z.le_gt_cases (v_power u - look vals u) 0) as [D|D]; [lia|]. specialize (Pos D). lia. }
   apply IH; try assumption; [intros; apply Pu; now right|lia|lia].
